@@ -15,7 +15,7 @@ BLOB_ENTRIES = [("mtrl", b"\x00\x00\x03\x01"), ("shpk", b"ShPk"), ("sklb", b"blk
 
 
 def tex_file(fmt, w, h, rng):
-    bs = {0x1450: 4 * w * h, 0x3420: 8 * ((w + 3) // 4) * ((h + 3) // 4)}.get(fmt, 16 * ((w + 3) // 4) * ((h + 3) // 4))
+    bs = {0x1450: 4 * w * h, 0x1440: 2 * w * h, 0x3420: 8 * ((w + 3) // 4) * ((h + 3) // 4)}.get(fmt, 16 * ((w + 3) // 4) * ((h + 3) // 4))
     return struct.pack("<IIHHHH", 0, fmt, w, h, 1, 1) + struct.pack("<3I", 80, 0, 0) + struct.pack("<13I", *([80] + [0] * 12)) + bytes(rng.randrange(256) for _ in range(bs))
 
 
@@ -39,11 +39,11 @@ def check(run):
                              + [(decl_end, 2), (decl_end + 4, 4)] + [(o, 2) for o in range(decl_end + 8 + 40, decl_end + 8 + 40 + 80, 2)]
                              + faults.words(len(mb) - (decl_end + 130), 400)))
     bases[-1]["fields"] += [(decl_end + 130 + o, 2) for o in range(0, 420, 2) if decl_end + 132 + o < len(mb)]
-    for name, fmt in (("bgra", 0x1450), ("bc1", 0x3420), ("bc3", 0x3431), ("bc5", 0x6230)):
+    for name, fmt in (("bgra", 0x1450), ("b4g4r4a4", 0x1440), ("bc1", 0x3420), ("bc3", 0x3431), ("bc5", 0x6230)):
         t = tex_file(fmt, 9, 6, rng)
         bases.append(faults.base("tex:" + name, "tex", t, [(0, 4), (4, 4), (8, 2), (10, 2), (12, 2), (14, 2), (16, 4), (28, 4)]))
     # tall textures: one damaged dimension is then enough to make the decoded size exceed any budget
-    for name, fmt in (("bgra-tall", 0x1450), ("bc3-tall", 0x3431)):
+    for name, fmt in (("bgra-tall", 0x1450), ("b4g4r4a4-tall", 0x1440), ("bc3-tall", 0x3431)):
         t = tex_file(fmt, 4, 2048, rng)
         bases.append(faults.base("tex:" + name, "tex", t, [(8, 2), (10, 2), (12, 2), (14, 2)]))
     cols = [(0, 0), (7, 4), (25, 8), (26, 8), (9, 12), (11, 16)]
@@ -161,6 +161,8 @@ def check(run):
         extra.append(inst_line("index-truncated-%d" % k, cut(isidx, k)))
     for stray in ("e", "ex", "exx", "ffxiv2", "ex1.bak", "éx1", "exé", "eé", "ex\u00e9\u00e9", "e\u20ac"):
         extra.append(inst_line("stray-dir-" + stray, lambda fs, s=stray: fs + [{"p": "sqpack/" + s}]))
+    for raw in (b"sqpack/ex\xff", b"sqpack/\xff\xfe", b"sqpack/ex1\x80"):      # names that are not UTF-8
+        extra.append(inst_line("stray-dir-bytes-" + raw.hex(), lambda fs, r=raw: fs + [{"p_hex": r.hex()}]))
     extra.append(inst_line("sqpack-missing", lambda fs: []))
     # garbled deflate streams inside a texture entry (the one entry kind whose reader reports a failed block as None):
     # every one of the first 8 payload bytes inverted, for each deflate flavour -> inflate fails; nothing may stay allocated
